@@ -244,3 +244,17 @@ fn decode_headers(payload: &[u8]) -> Result<Vec<HttpHeader>, hpack_patched::deco
         Err(e) => Err(e),
     }
 }
+
+/// Verification hook (feature `verif-hooks`, default off): the frame-selection half of
+/// `extract_akamai_fingerprint` (which SETTINGS, WINDOW_UPDATE and PRIORITY frames contribute,
+/// decoded) without the string/hash construction and without HPACK.
+#[cfg(feature = "verif-hooks")]
+pub fn verif_select_fingerprint_parts(
+    frames: &[Http2Frame],
+) -> (Vec<SettingParameter>, u32, Vec<Http2Priority>) {
+    (
+        extract_settings_parameters(frames),
+        extract_window_update(frames),
+        extract_priority_frames(frames),
+    )
+}
